@@ -9,6 +9,9 @@ package multidb
 //@ ghost gRecs[kvdb.Store] [1]TableRecord
 //@ // gAskedAt[t]: the number (gNamesN) of the last Names() call made on the producer of type t
 //@ ghost gAskedAt[TypeName] int
+//@ // gPatOf[f]: the request pattern that the compiled filter f was built from
+//@ ghost gPatOf[int] string
+//@ ghost gIsFilter[int] bool
 //@ // assumed: the records list is read back as written (RLP round trip through the store)
 //@ trusted func ReadTablesList
 //@   requires store != nil
@@ -91,3 +94,32 @@ package multidb
 //@   loop 1 invariant gNamesN >= old(gNamesN) && forall(t TypeName, _visited[t] ==> gAskedAt[t] > old(gNamesN))
 //@   loop 2 modifies dbRecords[*], nopen
 //@   loop 2 invariant 0 <= _k && _k <= len(_range) && forall(j, 0, _k, has(dbRecords, mk("DBLocator", typ, _range[j])))
+//@
+//@ // ---- construction: the order in which pattern routes are tried is a function of the routing table alone ----
+//@ package github.com/Fantom-foundation/lachesis-base/utils/fmtfilter
+//@ // assumed (string scanning is outside the verifier's subset): a compiled filter remembers the pattern it was built from
+//@ trusted func CompileFilter
+//@   modifies gPatOf[*], gIsFilter[*]
+//@   ensures  result1 == nil ==> result0 != nil && gPatOf[result0] == scanfTemplate && !old(gIsFilter[result0]) && gIsFilter[result0]
+//@   ensures  forall(f int, f != result0 ==> gPatOf[f] == old(gPatOf[f]) && gIsFilter[f] == old(gIsFilter[f]))
+//@ package github.com/Fantom-foundation/lachesis-base/kvdb/multidb
+//@ // NewProducer: exact routes (no '%' in request and name) go to the exact table unchanged; the pattern routes are
+//@ // listed in ascending order of their request patterns -- NOT in map iteration order -- so that RouteOf, which takes the
+//@ // first accepting pattern, is a function of the routing table alone
+//@ func NewProducer
+//@   modifies nsort, gPatOf[*], gIsFilter[*]
+//@   ensures  [default] result1 == nil ==> has(routingTable, "")
+//@   ensures  [order] result1 == nil ==> result0 != nil && forall(i, 0, len(result0.routingFmt), forall(j, i + 1, len(result0.routingFmt), slt(gPatOf[result0.routingFmt[i].Name], gPatOf[result0.routingFmt[j].Name])))
+//@   ensures  [patterns] result1 == nil ==> forall(i, 0, len(result0.routingFmt), result0.routingFmt[i].Name != nil && has(routingTable, gPatOf[result0.routingFmt[i].Name]) && result0.routingFmt[i].Type == routingTable[gPatOf[result0.routingFmt[i].Name]].Type && result0.routingFmt[i].Table == routingTable[gPatOf[result0.routingFmt[i].Name]].Table && result0.routingFmt[i].NoDrop == routingTable[gPatOf[result0.routingFmt[i].Name]].NoDrop)
+//@   ensures  [exact] result1 == nil ==> forall(r string, has(result0.routingTable, r) ==> has(routingTable, r) && result0.routingTable[r] == routingTable[r])
+//@   loop 1 modifies reqs[*]
+//@   loop 1 invariant arrof(reqs) == arrof(atentry(reqs)) && len(reqs) == _k && 0 <= _k && _k <= len(routingTable) && cap(reqs) == len(routingTable)
+//@   loop 1 invariant forall(j, 0, _k, _visited[reqs[j]] && has(routingTable, reqs[j])) && forall(i, 0, _k, forall(j, 0, _k, i != j ==> reqs[i] != reqs[j]))
+//@   loop 2 modifies routingFmt[*], exactRoutingTable[*], used[*], gPatOf[*], gIsFilter[*]
+//@   loop 2 invariant arrof(routingFmt) == arrof(atentry(routingFmt)) || arrfresh(routingFmt, _loopalloc)
+//@   loop 2 invariant 0 <= _k && _k <= len(reqs) && arrfresh(routingFmt, old(_alloc)) && len(routingFmt) <= _k
+//@   loop 2 invariant [filters] forall(i, 0, len(routingFmt), gIsFilter[routingFmt[i].Name])
+//@   loop 2 invariant [below] forall(i, 0, len(routingFmt), forall(m, _k, len(reqs), slt(gPatOf[routingFmt[i].Name], reqs[m])))
+//@   loop 2 invariant [order] forall(i, 0, len(routingFmt), forall(j, i + 1, len(routingFmt), slt(gPatOf[routingFmt[i].Name], gPatOf[routingFmt[j].Name])))
+//@   loop 2 invariant [patterns] forall(i, 0, len(routingFmt), routingFmt[i].Name != nil && has(routingTable, gPatOf[routingFmt[i].Name]) && routingFmt[i].Type == routingTable[gPatOf[routingFmt[i].Name]].Type && routingFmt[i].Table == routingTable[gPatOf[routingFmt[i].Name]].Table && routingFmt[i].NoDrop == routingTable[gPatOf[routingFmt[i].Name]].NoDrop)
+//@   loop 2 invariant [exact] forall(r string, has(exactRoutingTable, r) ==> has(routingTable, r) && exactRoutingTable[r] == routingTable[r])
